@@ -62,6 +62,8 @@ func init() {
 func runC14(c *Ctx, r *Report) {
 	importFoundation(c, r, "C14", "escalation-secret")
 	importFoundation(c, r, "C14", "driver-options")
+	r.Rule("C14/password-prompt-anchored", "the built-in pattern that decides when the login password is typed matches only where the prompt ends a line (the password goes to the authentication exchange only)", 1)
+	checkPasswordPromptAnchored(c, r, "C14/password-prompt-anchored")
 	r.Rule("C14/no-auth-steering", "the ssh argument list adds no option that steers authentication or host identity beyond the configured key / known-hosts / config file", 1)
 	checkNoAuthSteeringArgs(c, r, "C14/no-auth-steering")
 	r.Rule("C14/fresh-args", "every transport / ssh argument constructor hands out an object of its own: one connection's host-key opt-out cannot persist into the next connection's arguments", 3)
